@@ -4,6 +4,7 @@
 cd /verif || exit 2
 for d in seeded/*/; do
   key=$(basename "$d")
+  if [ -n "${SKIP_FILE:-}" ] && grep -q "^$key " "$SKIP_FILE"; then continue; fi
   ids=$(python3 - "$d/meta.json" <<'PY'
 import json,sys,re
 m=json.load(open(sys.argv[1]))
